@@ -149,6 +149,17 @@ crypt_sha1crypt_rn (const char *phrase, size_t phr_size,
 
   sl = (size_t)(sp - setting);
 
+  /* The salt can be arbitrarily long.  Make sure the complete result,
+     "$sha1$<iterations>$<salt>$<digest>" plus the terminating NUL, fits
+     into the output buffer before anything is written to it.  */
+  dl = snprintf (NULL, 0, "%s%lu$", magic, iterations);
+  if (dl < 0 || sl > out_size ||
+      (size_t)dl + 1 + SHA1_OUTPUT_SIZE + 1 > out_size - sl)
+    {
+      errno = ERANGE;
+      return;
+    }
+
   /*
    * Now get to work...
    * Prime the pump with <salt><magic><iterations>
